@@ -15,7 +15,7 @@ func init() {
 		ID: "C13", Fn: c13,
 		Rule:        "budget: the time-budget computation (verif wrapper) swept over remaining time 1 ms..3 h (log grid) x increment {0, 1 ms, T/100, T/10, T/2, T, 2T, 10T} x movestogo {0,1,2,5,10,40,100} x side x positions of game phase 0..24: budget <= mover's remaining time and n*budget <= T + n*inc (n = movestogo, 15 when none); live clock searches: timer-start trace value equals the wrapper's; depth: SearchDepth == d and info depth 1..d all sent unless the root is terminal / single-move; nodes: NodesVisited <= limit + 256; searchmoves: best move in the list for random subsets of the legal root moves; movetime: elapsed <= movetime + allowance, exceedances re-run serially and only reproducible ones count; distinct = distinct parameter tuples",
 		Assumptions: []string{"allowance for the temporal clause 250 ms (parallel load), decided by isolate-and-reproduce", "node overshoot bound 256 = at most one node per ply (MaxDepth 128) while unwinding plus one per iteration"},
-		Required:    []string{"budget_evaluations", "budget_inc_gt_time", "budget_movestogo_1", "budget_opponent_has_more_time", "depth_searches", "node_searches", "node_searches_heavy_positions", "searchmoves_searches", "searchmoves_excluding_best", "movetime_searches", "movetime_searches_with_rejected_start", "clock_searches_traced"},
+		Required:    []string{"budget_evaluations", "budget_inc_gt_time", "budget_movestogo_1", "budget_opponent_has_more_time", "depth_searches", "node_searches", "node_searches_heavy_positions", "node_searches_with_rejected_start", "searchmoves_searches", "searchmoves_excluding_best", "movetime_searches", "movetime_searches_with_rejected_start", "clock_searches_traced"},
 		MinEvals:    10000,
 		TimeoutQ:    20 * 60e9,
 	})
@@ -113,7 +113,21 @@ func c13(c *Ctx) {
 	var timerStarts []int64
 	var timerExitEarly int
 	var timerEvents, timedSearches int // events seen / timed searches started in this loop (under traceMu)
+	var dbgEvents []string
+	var resultNodes []int64 // node counts of the results sent since the last reset (under traceMu)
+	dbgT0 := time.Now()
 	search.VerifTraceHook = func(ev string, a, b int64) {
+		traceMu.Lock()
+		dbgEvents = append(dbgEvents, fmt.Sprintf("%.3fms %s %d %d", float64(time.Since(dbgT0))/1e6, ev, a, b))
+		if len(dbgEvents) > 400 {
+			dbgEvents = dbgEvents[200:]
+		}
+		traceMu.Unlock()
+		if ev == "result-send" {
+			traceMu.Lock()
+			resultNodes = append(resultNodes, b)
+			traceMu.Unlock()
+		}
 		if ev == "timer-start" {
 			traceMu.Lock()
 			timerStarts = append(timerStarts, b)
@@ -201,12 +215,48 @@ func c13(c *Ctx) {
 				rep.Inc("node_searches_heavy_positions")
 			}
 			rep.Begin(fmt.Sprintf("nodes %d %s", n, fen))
-			runSearch(s, p, search.Limits{Nodes: n, Depth: 9})
+			traceMu.Lock()
+			resultNodes = nil
+			traceMu.Unlock()
+			if r.Chance(0.35) {
+				// a second start while this search runs is rejected and must leave the running
+				// search's limit alone
+				rep.Inc("node_searches_with_rejected_start")
+				s.StartSearch(*p, search.Limits{Nodes: n, Depth: 9})
+				time.Sleep(time.Duration(200+r.Intn(2500)) * time.Microsecond)
+				s.StartSearch(*engPos(fen), search.Limits{Depth: 1})
+				done := make(chan struct{})
+				go func() { s.WaitWhileSearching(); close(done) }()
+				select {
+				case <-done:
+				case <-time.After(15 * time.Second):
+					// judged below by the node count, not by the time
+					s.StopSearch()
+					<-done
+				}
+			} else {
+				runSearch(s, p, search.Limits{Nodes: n, Depth: 9})
+			}
 			rep.Eval(1)
 			rep.Inc("node_searches")
 			rep.DistinctStr(fmt.Sprintf("n%d%s", n, fen))
 			payload["nodes"] = n
-			if got := s.NodesVisited(); got > n+256 {
+			// the node count of the node-limited search itself (a second start that came after
+			// its end was accepted and ran a search of its own)
+			got := s.NodesVisited()
+			traceMu.Lock()
+			if len(resultNodes) > 0 {
+				got = uint64(resultNodes[0])
+			}
+			traceMu.Unlock()
+			if got > n+256 {
+				traceMu.Lock()
+				k := len(dbgEvents) - 40
+				if k < 0 {
+					k = 0
+				}
+				payload["trace_tail"] = append([]string(nil), dbgEvents[k:]...)
+				traceMu.Unlock()
 				rep.Viol("nodes:overshoot", fmt.Sprintf("go nodes %d on %s visited %d nodes", n, fen, got), payload)
 			}
 		case 2: // searchmoves
